@@ -156,6 +156,8 @@ func (clnt *Clnt) recv() {
 			err = &Error{oerr.Error(), EIO}
 			clnt.Lock()
 			clnt.err = err
+			/* the writer may be blocked writing to a peer that is gone */
+			_ = clnt.conn.Close()
 			clnt.Unlock()
 			goto closed
 		}
